@@ -1226,6 +1226,13 @@ void PrintChunk(ChunkList* NChunk, DissectBitProc Dissect, int ItemsPerLine) {
                 BufferZ  = 0;
             }
             NewMin = NChunk->Chunks[p].Start + NChunk->Chunks[p].Length;
+
+            /* a chunk that ends at the top of the address space: nothing lies above it,
+               and the wrapped value would start the search all over */
+
+            if (NewMin <= NChunk->Chunks[p].Start) {
+                Found = False;
+            }
         }
     } while (Found);
 
